@@ -35,6 +35,8 @@ fn cfg(unit: &Value) -> anemo::Config {
     c.max_connection_backoff_ms = unit["max_ms"].as_u64();
     c.max_concurrent_outstanding_connecting_connections = unit["cap"].as_u64().map(|x| x as usize);
     c.connect_timeout_ms = Some(CONNECT_TIMEOUT_US / 1000);
+    // background dials to High-affinity peers are not subject to the connection limit
+    c.max_concurrent_connections = unit["conn_limit"].as_u64().map(|x| x as usize);
     let mut q = anemo::QuicConfig::default();
     q.max_idle_timeout_ms = Some(IDLE_MS);
     q.keep_alive_interval_ms = Some(1_000);
@@ -112,12 +114,15 @@ async fn scenario(sim: Arc<Sim>, unit: Value) -> Obs {
         Target { name: "t4-no-address", addrs: vec![], live_addr: None, high: true, may_dial: false, id: peer_id_of_key(15) },
         Target { name: "self", addrs: vec![hole(2)], live_addr: None, high: true, may_dial: false, id: x.peer_id() },
         // a High peer that connects to us first: never to be dialed while connected
-        Target { name: "t5-already-connected", addrs: vec![t5.local_addr()], live_addr: Some(0), high: true, may_dial: false, id: t5.peer_id() },
+        // (with a connection limit of 0 it cannot connect first: then it is one more peer to dial)
+        Target { name: "t5-already-connected", addrs: vec![t5.local_addr()], live_addr: Some(0), high: true, may_dial: unit["conn_limit"].as_u64() == Some(0), id: t5.peer_id() },
     ];
     // t5 dials X before the table is installed
-    let pre = t5.connect(x.local_addr()).await;
-    if pre.is_err() {
-        o.violations.push(("setup".into(), format!("t5 could not connect: {pre:?}")));
+    if unit["conn_limit"].as_u64() != Some(0) {
+        let pre = t5.connect(x.local_addr()).await;
+        if pre.is_err() {
+            o.violations.push(("setup".into(), format!("t5 could not connect: {pre:?}")));
+        }
     }
     // link X<->t0 follows the schedule, initially whatever the first entry at 0 says (default up)
     let mut up0 = true;
@@ -171,7 +176,7 @@ async fn scenario(sim: Arc<Sim>, unit: Value) -> Obs {
     macro_rules! viol {
         ($k:expr, $($arg:tt)*) => { o.violations.push(($k.to_string(), format!($($arg)*))) };
     }
-    let cfgs = format!("[interval {}ms jitter {}ms step {}ms max {}ms cap {cap} table {table_variant} schedule {:?}]", unit["interval_ms"], unit["jitter_ms"], unit["step_ms"], unit["max_ms"], unit["schedule"]);
+    let cfgs = format!("[interval {}ms jitter {}ms step {}ms max {}ms cap {cap} table {table_variant} schedule {:?}{}]", unit["interval_ms"], unit["jitter_ms"], unit["step_ms"], unit["max_ms"], unit["schedule"], match unit["conn_limit"].as_u64() { Some(l) => format!(" max_concurrent_connections {l}"), None => String::new() });
     // connected(p, t): is p listed by X at time t (from snapshot + timestamped events)
     let connected_at = |id: &anemo::PeerId, t: u64| -> bool {
         let mut c = snap.contains(id);
@@ -402,7 +407,7 @@ impl Check for C13 {
         CheckMeta {
             property: "C13",
             level: "exploration",
-            rule: "configurations (interval x jitter x back-off step x max back-off x in-flight cap) x known-peer table variants (High with 1/2/3 addresses incl. black holes, Allowed, Never, self, address-less, already connected) x reachability schedules of a High target (up/down toggles from a menu of instants), each run for 60-120 virtual seconds; small caps also with explicit dials to a silent address in flight (they hold slots); attempts read from the fabric; distinct = distinct (attempt count, failure count, final connectivity); plus a sweep of the back-off arithmetic".into(),
+            rule: "configurations (interval x jitter x back-off step x max back-off x in-flight cap) x known-peer table variants (High with 1/2/3 addresses incl. black holes, Allowed, Never, self, address-less, already connected) x reachability schedules of a High target (up/down toggles from a menu of instants), each run for 60-120 virtual seconds; a connection limit of 0 / 1 (already filled) that background dials must ignore; small caps also with explicit dials to a silent address in flight (they hold slots); attempts read from the fabric; distinct = distinct (attempt count, failure count, final connectivity); plus a sweep of the back-off arithmetic".into(),
             assumptions: vec!["tick instants are start + n*(interval + jitter) with the jitter pinned through the hook (values 0 and 900 ms)".into(), "connect timeout 1.5 s so that a dial to a black hole lasts exactly that long".into()],
             exhaustive: true,
         }
@@ -453,6 +458,19 @@ impl Check for C13 {
                                 }
                             }
                         }
+                    }
+                }
+            }
+        }
+        // a connection limit that the High peer connected from the start already fills (or 0)
+        for limit in [0u64, 1] {
+            for cap in [1u64, 100] {
+                for table in 0..3u64 {
+                    for (si, sc) in schedules.iter().enumerate() {
+                        if tier == Tier::Quick && si % 3 != 0 {
+                            continue;
+                        }
+                        u.push(json!({"kind":"run","interval_ms":1_000,"jitter_ms":0,"step_ms":1_000,"max_ms":3_000,"cap":cap,"table":table,"schedule":sc,"horizon_s":70,"conn_limit":limit}));
                     }
                 }
             }
